@@ -100,3 +100,29 @@ Fixpoint Qmat_eqb (a b : list (list Q)) : bool :=
   | x :: a', y :: b' => Qlist_eqb x y && Qmat_eqb a' b'
   | _, _ => false
   end.
+
+(* |a - b| <= tol, entrywise *)
+Definition Qclose (tol a b : Q) : bool := Qle_bool (a - b) tol && Qle_bool (b - a) tol.
+Fixpoint Qlist_close (tol : Q) (a b : list Q) : bool :=
+  match a, b with
+  | [], [] => true
+  | x :: a', y :: b' => Qclose tol x y && Qlist_close tol a' b'
+  | _, _ => false
+  end.
+Fixpoint Qmat_close (tol : Q) (a b : list (list Q)) : bool :=
+  match a, b with
+  | [], [] => true
+  | x :: a', y :: b' => Qlist_close tol x y && Qmat_close tol a' b'
+  | _, _ => false
+  end.
+
+(* the documented leaf predictor  sum_i alpha_i * K(x, c_i)  for an arbitrary kernel function K;
+   a leaf is its list of (center, coefficient row) pairs *)
+Definition kernel_expansion (K : list Q -> list Q -> Q) (nout : nat) (leaf : list (list Q * list Q)) (x : list Q) : list Q :=
+  fold_left vsum (map (fun ca => vscale (K x (fst ca)) (snd ca)) leaf) (repeat 0 nout).
+
+(* compare only selected rows *)
+Definition rows_eqb_at (keep : list nat) (a b : list (list Q)) : bool :=
+  (length a =? length b)%nat && forallb (fun i => Qlist_eqb (nth i a []) (nth i b [])) keep.
+Definition rows_close_at (tol : Q) (keep : list nat) (a b : list (list Q)) : bool :=
+  (length a =? length b)%nat && forallb (fun i => Qlist_close tol (nth i a []) (nth i b [])) keep.
